@@ -336,9 +336,9 @@ impl Check for RwaCheck {
     }
     fn runs(&self, tier: Tier) -> u64 {
         if tier == Tier::Quick {
-            600
+            3000
         } else {
-            60_000
+            60000
         }
     }
     fn components(&self) -> serde_json::Value {
@@ -362,8 +362,10 @@ impl Check for RwaCheck {
     fn property_of(&self, check: &str) -> std::vec::Vec<&'static str> {
         if check.starts_with("events.") || check.starts_with("conserve.") {
             vec!["C01"]
+        } else if check.starts_with("auth.") || check.starts_with("allowance.") {
+            vec!["C02"]
         } else if check == "fail.no_trace" || check == "state.model_eq" {
-            vec!["C01", "C04"]
+            vec!["C01", "C02", "C04"]
         } else {
             vec!["C04"]
         }
@@ -535,13 +537,22 @@ impl Check for RwaCheck {
             if under_closed_gate {
                 st.hit(if kind == "transfer" { "probe.transfer_under_closed_gate" } else { "probe.transfer_from_under_closed_gate" });
             }
+            let snap_allow = m.allow.clone();
             let exp = m.apply(s);
             let is_collab = matches!(s, Step::SetIdentity { .. } | Step::SetCompliance { .. } | Step::SetTarget { .. });
             if !is_collab {
                 st.tx(kind, got);
             }
             if got != exp {
+                // attribute the refusal reason: authorization / allowance (C02) before the gates (C04)
+                let unsigned = matches!(s, Step::Transfer { signed: false, .. } | Step::TransferFrom { signed: false, .. });
+                let short_allowance = match s {
+                    Step::TransferFrom { spender, from, amt, .. } => *snap_allow.get(&(*from, *spender)).unwrap_or(&0) < *amt,
+                    _ => false,
+                };
                 let check = match (kind, got) {
+                    ("transfer" | "transfer_from", true) if unsigned => "auth.principal_must_authorize",
+                    ("transfer_from", true) if short_allowance => "auth.debit_needs_holder_or_allowance",
                     ("transfer", true) => "gate.transfer",
                     ("transfer_from", true) => "gate.transfer_from",
                     ("mint", true) => "gate.mint",
@@ -565,6 +576,15 @@ impl Check for RwaCheck {
                 if b != m.b(x) || f != m.f(x) || af != m.isf(x) {
                     let check = match kind { "forced_transfer" | "burn" => "supervisory.min_unfreeze", "recover_balance" => "recover.whole_balance_to_target", _ => "state.model_eq" };
                     return Err(violation(check, kind, i, format!("actor {x}: balance {b}/{} frozen {f}/{} addr-frozen {af}/{} after {s:?}", m.b(x), m.f(x), m.isf(x))));
+                }
+            }
+            // allowances (C02): the getter equals what was approved minus what was spent
+            for o in 0..cfg.actors {
+                for sp in 0..cfg.actors {
+                    let al = c.allowance(&a(o), &a(sp));
+                    if al != *m.allow.get(&(o, sp)).unwrap_or(&0) {
+                        return Err(violation("allowance.model_eq", kind, i, format!("allowance({o},{sp}) = {al}, model {:?} after {s:?}", m.allow.get(&(o, sp)))));
+                    }
                 }
             }
             let (tr, cr, de) = (cc.count(&symbol_short!("tr")), cc.count(&symbol_short!("cr")), cc.count(&symbol_short!("de")));
